@@ -2,7 +2,7 @@
 
 Addresses: usr0..usr7 -> 0..7, cpool -> 9, contractK -> 10+K (the byte order of these names under
 cw-storage-plus' length-prefixed keys is the numeric order, which the paged queries rely on);
-invalid addresses -> >= 1000.  Denominations: ujunox 0, uusdcx 1, uatom 2, uosmo 3, dNN -> 10+NN.
+invalid addresses -> >= 1000.  Denominations: ujunox 0, uusdcx 1, uatom 2, uosmo 3, dNN -> 10+NN, xNNN -> 200+NNN.
 NFT token ids are decimal strings, or one of the ODD_TOKENS below: cw721 token ids are arbitrary
 strings, and ids that differ only in letter case, surrounding blanks or leading zeros are different
 tokens (distinct numbers on the Coq side)."""
@@ -10,7 +10,8 @@ tokens (distinct numbers on the Coq side)."""
 USERS = ["usr%d" % i for i in range(8)]
 POOL = "cpool"
 INVALID_ADDRS = {"x": 1000, "USR0": 1001, "": 1002, "Contract2": 1003}
-BASE_DENOMS = {"ujunox": 0, "uusdcx": 1, "uatom": 2, "uosmo": 3}
+# "UATOM", "Uatom", "uatom " are different bank denominations from "uatom" (case / blank variants, like the odd token ids)
+BASE_DENOMS = {"ujunox": 0, "uusdcx": 1, "uatom": 2, "uosmo": 3, "UATOM": 4, "Uatom": 5, "UJUNOX": 6}
 
 
 def addr_num(name):
@@ -37,6 +38,8 @@ def denom_num(d):
         return BASE_DENOMS[d]
     if len(d) == 3 and d[0] == "d" and d[1:].isdigit():
         return 10 + int(d[1:])
+    if len(d) == 4 and d[0] == "x" and d[1:].isdigit():
+        return 200 + int(d[1:])
     raise ValueError("denom outside the universe: %r" % (d,))
 
 
